@@ -32,6 +32,7 @@ ASSUMPTIONS = [
     "compile conservation ignores blank and comment-only lines (a part holding only comments is never compiled)",
 ]
 NSHARDS = {'quick': 16, 'thorough': 16}
+RULE += (' Layouts: two empty lines as separator (inside google blocks too); statement kind with lines of a string literal that read like directives.')
 
 COMPOUND = {'multiline', 'for', 'if', 'def', 'defblank', 'try', 'deco', 'deco2', 'mlstr', 'mlstr_prompt', 'with',
             'while', 'class', 'asyncdef', 'asyncwith', 'bracket_comment', 'backslash', 'callml', 'dictlit',
